@@ -13,6 +13,8 @@ package main
 //	chunk.save secs= ypos= via= mdl= psecs= phist= reg= nb= air= hist= => ok W= Y= SP= SH= Sst= K= R= RH= Rst=
 //	     (psecs/phist: the destination save.Chunk was filled before by that chunk; K: XPos.ZPos.DataVersion.InhabitedTime.
 //	      digest of another Heightmaps entry.YPos.#BlockEntities.#Heightmaps — what ChunkToSave must leave alone)
+//	chunk.life secs= ypos= mdl= reg= nb= air= from=<hist|hand> hist= rounds= | S=<hand-built sections> post=<ops>
+//	     => ok L=<loaded sections> P=<after post> n= len= wd= rn= left= Q=<wire read-back> T=<saved and loaded again>
 //	light.rt used= extra= sky= blk= sl= bl= => ok n= len= wd= rn= left= sky= blk= sl= bl=
 //	save.hm secs= k= longs= => ok | err | panic…           (ChunkFromSave with height map k of that many longs; -1 = absent)
 //	chunk.rd secs= used= <hex> | section.rd used= <hex> | be.rd used= <hex> | light.rd used= <hex>
@@ -471,6 +473,148 @@ func c13SaveHM(c *Ctx, args []string) {
 		obs = cls
 	}
 	c.Emit("save.hm", args, obs)
+}
+
+// ---------- life after loading: save form -> chunk -> SetBlock -> wire / save again ----------
+
+// c13PackIdx packs indices at `width` bits the way the save format does (independent of level.BitStorage).
+func c13PackIdx(width int, idx []int) []uint64 {
+	if width == 0 {
+		return nil
+	}
+	vpl := 64 / width
+	out := make([]uint64, (len(idx)+vpl-1)/vpl)
+	for k, v := range idx {
+		out[k/vpl] |= uint64(v) << uint((k%vpl)*width)
+	}
+	return out
+}
+
+func c13SaveWidth(min, n int) int {
+	w := bits.Len(uint(n - 1))
+	if w < min {
+		w = min
+	}
+	return w
+}
+
+// c13HandSection: "<ids>|<a>.<m>|<biome ids>|<a>.<m>" — palette ids joined by '.', cell k holds palette[(a+k*m) mod len];
+// "-" instead of a.m: no data array (nil), which is also what a one-entry palette gets.
+func c13HandSection(spec string, y int8) (save.Section, error) {
+	f := strings.Split(spec, "|")
+	var sec save.Section
+	sec.Y = y
+	ids := strings.Split(f[0], ".")
+	sec.BlockStates.Palette = make([]save.BlockState, len(ids))
+	var buffer bytes.Buffer
+	for i, t := range ids {
+		b := block.StateList[c13Atoi(t)]
+		sec.BlockStates.Palette[i].Name = b.ID()
+		buffer.Reset()
+		if err := nbt.NewEncoder(&buffer).Encode(b, ""); err != nil {
+			return sec, err
+		}
+		if _, err := nbt.NewDecoder(&buffer).Decode(&sec.BlockStates.Palette[i].Properties); err != nil {
+			return sec, err
+		}
+	}
+	gen := func(am string, cells, plen, min int) []uint64 {
+		if am == "-" || plen == 1 {
+			return nil
+		}
+		p := strings.Split(am, ".")
+		a, m := c13Atoi(p[0]), c13Atoi(p[1])
+		idx := make([]int, cells)
+		for k := range idx {
+			idx[k] = (a + k*m) % plen
+		}
+		return c13PackIdx(c13SaveWidth(min, plen), idx)
+	}
+	sec.BlockStates.Data = gen(f[1], 4096, len(ids), 4)
+	bids := strings.Split(f[2], ".")
+	sec.Biomes.Palette = make([]save.BiomeState, len(bids))
+	for i, t := range bids {
+		name, err := biome.Type(c13Atoi(t)).MarshalText()
+		if err != nil {
+			return sec, err
+		}
+		sec.Biomes.Palette[i] = save.BiomeState(name)
+	}
+	sec.Biomes.Data = gen(f[3], 64, len(bids), 0)
+	return sec, nil
+}
+
+func c13Life(c *Ctx, args []string) {
+	m := c13ParseArgs(args)
+	e := m.env()
+	ypos := int32(c13Atoi(m["ypos"]))
+	var obs string
+	cls := c13GuardT(20*time.Second, func() {
+		var cur *level.Chunk
+		var err error
+		if m["from"] == "hand" {
+			sv := &save.Chunk{YPos: ypos, Status: "hand"}
+			for i, spec := range strings.Split(m["S"], "/") {
+				sec, err := c13HandSection(spec, int8(int32(i)+ypos))
+				if err != nil {
+					obs = "err@hand"
+					return
+				}
+				sv.Sections = append(sv.Sections, sec)
+			}
+			if cur, err = level.ChunkFromSave(sv); err != nil {
+				obs = "err@fromsave"
+				return
+			}
+		} else {
+			cur = level.EmptyChunk(e.secs)
+			c13Apply(cur, e, m["hist"])
+			for r := c13Atoi(m["rounds"]); r > 0; r-- {
+				sv := &save.Chunk{YPos: ypos}
+				if err = level.ChunkToSave(cur, sv); err != nil {
+					obs = "err@tosave"
+					return
+				}
+				if cur, err = level.ChunkFromSave(sv); err != nil {
+					obs = "err@fromsave"
+					return
+				}
+			}
+		}
+		l := c13SecsObs(cur, false, false)
+		c13Apply(cur, e, m["post"])
+		p := c13SecsObs(cur, false, false)
+		var buf bytes.Buffer
+		n, err := cur.WriteTo(&buf)
+		if err != nil {
+			obs = "werr"
+			return
+		}
+		dst := level.EmptyChunk(e.secs)
+		r := bytes.NewReader(buf.Bytes())
+		rn, err := dst.ReadFrom(r)
+		if err != nil {
+			obs = fmt.Sprintf("ok L=%s P=%s rerr left=%d", l, p, r.Len())
+			return
+		}
+		q := c13SecsObs(dst, false, false)
+		sv := &save.Chunk{YPos: ypos}
+		if err = level.ChunkToSave(cur, sv); err != nil {
+			obs = "err@tosave2"
+			return
+		}
+		again, err := level.ChunkFromSave(sv)
+		if err != nil {
+			obs = "err@fromsave2"
+			return
+		}
+		obs = fmt.Sprintf("ok L=%s P=%s n=%d len=%d wd=%s rn=%d left=%d Q=%s T=%s", l, p, n, buf.Len(), c13DigBytes(buf.Bytes()), rn, r.Len(), q,
+			c13SecsObs(again, false, false))
+	})
+	if cls != "" {
+		obs = cls
+	}
+	c.Emit("chunk.life", args, obs)
 }
 
 // ---------- the light block ----------
@@ -1003,6 +1147,8 @@ func replayC13(c *Ctx, op string, args []string) bool {
 		c13Wire(c, args)
 	case "chunk.save":
 		c13Save(c, args)
+	case "chunk.life":
+		c13Life(c, args)
 	case "light.rt":
 		c13LightRT(c, args)
 	case "save.hm":
@@ -1411,6 +1557,97 @@ func (c *Ctx) c13SaveCase(secs int, cls int, air []int, mdl bool) {
 		"reg=" + strconv.Itoa(e.reg), "nb=63", "air=" + c13AirArg(air), "hist=" + hist})
 }
 
+// c13LifeCase: a chunk that comes out of the save form (through ChunkToSave/ChunkFromSave once or twice, or from a
+// hand-built save form as vanilla writes it: one-entry palettes without data), its counters, then a few SetBlock
+// calls, a wire round trip and another save round trip.
+func (c *Ctx) c13LifeCase(i int, air []int, mdl bool) {
+	r := c.R
+	reg := len(block.StateList)
+	secs := 1 + r.Intn(4)
+	if !mdl && r.Intn(3) == 0 {
+		secs = 1 + r.Intn(24)
+	}
+	e := c13Env{secs: secs, reg: reg, nb: 63}
+	ypos := []int{0, -4, -1, 3}[r.Intn(4)]
+	m := "0"
+	if mdl {
+		m = "1"
+	}
+	uniform := func() int { // a state a whole section consists of
+		switch r.Intn(6) {
+		case 0:
+			return air[r.Intn(len(air))]
+		case 1:
+			return 0
+		case 2:
+			return 1 // stone
+		default:
+			return 1 + r.Intn(reg-1)
+		}
+	}
+	g := &c13Gen{c: c, e: e, air: air}
+	post := func() string {
+		pg := &c13Gen{c: c, e: e, air: air}
+		for k := r.Intn(5); k >= 0; k-- {
+			s := r.Intn(secs)
+			switch r.Intn(4) {
+			case 0: // remove one block
+				pg.add("sb:%d:%d:%d", s, r.Intn(4096), air[r.Intn(len(air))])
+			case 1: // the same cell twice
+				cell := r.Intn(4096)
+				pg.add("sb:%d:%d:%d", s, cell, pg.state())
+				pg.add("sb:%d:%d:%d", s, cell, 0)
+			default:
+				pg.add("sb:%d:%d:%d", s, r.Intn(4096), pg.state())
+			}
+		}
+		return pg.hist()
+	}
+	common := []string{"secs=" + strconv.Itoa(secs), "ypos=" + strconv.Itoa(ypos), "mdl=" + m,
+		"reg=" + strconv.Itoa(reg), "nb=63", "air=" + c13AirArg(air)}
+	if i%2 == 0 {
+		// through the library's own save form; two rounds turn a uniform section into a one-entry palette without data
+		for s := 0; s < secs; s++ {
+			switch r.Intn(4) {
+			case 0:
+			case 1:
+				g.section(s, c13StateClasses[r.Intn(8)], 2)
+			default:
+				g.add("fb:%d:0:4096:%d:0", s, uniform())
+			}
+			if r.Intn(3) == 0 {
+				g.add("fbi:%d:0:64:%d:0", s, r.Intn(63))
+			}
+		}
+		c13Life(c, append(common, "from=hist", "rounds="+strconv.Itoa(1+r.Intn(2)), "hist="+g.hist(), "post="+post()))
+		return
+	}
+	specs := make([]string, secs)
+	for s := range specs {
+		var ids []string
+		n := []int{1, 1, 1, 2, 3, 16, 17, 40}[r.Intn(8)]
+		seen := map[int]bool{}
+		for len(ids) < n {
+			v := uniform()
+			if !seen[v] {
+				seen[v] = true
+				ids = append(ids, strconv.Itoa(v))
+			}
+		}
+		am := fmt.Sprintf("%d.%d", r.Intn(n), 1+r.Intn(5))
+		if n > 1 && r.Intn(8) == 0 {
+			am = "-"
+		}
+		nbm := []int{1, 1, 2, 5, 9}[r.Intn(5)]
+		var bids []string
+		for k := 0; k < nbm; k++ {
+			bids = append(bids, strconv.Itoa((7*k+s)%63))
+		}
+		specs[s] = fmt.Sprintf("%s|%s|%s|%d.%d", strings.Join(ids, "."), am, strings.Join(bids, "."), r.Intn(nbm), 1+r.Intn(3))
+	}
+	c13Life(c, append(common, "from=hand", "S="+strings.Join(specs, "/"), "post="+post()))
+}
+
 func (c *Ctx) c13LightCase() {
 	r := c.R
 	mask := func() string {
@@ -1489,7 +1726,7 @@ func (c *Ctx) c13Malformed(op string, head []string, valid []byte, budget int) {
 			emit(valid[:k])
 		}
 	} else {
-		for k := 0; k < 96; k++ {
+		for k := 0; k < c.N(48, 96); k++ {
 			emit(valid[:k])
 		}
 		for k := len(valid) - 16; k < len(valid); k++ {
@@ -1568,7 +1805,7 @@ func genC13(c *Ctx) {
 	}
 
 	// light block round trips
-	for i := 0; i < c.N(250, 3000); i++ {
+	for i := 0; i < c.N(150, 3000); i++ {
 		c.c13LightCase()
 	}
 
@@ -1577,13 +1814,13 @@ func genC13(c *Ctx) {
 	// (lines with mdl=1 are replayed on the byte-level model by the driver, the others are judged by the array oracle only)
 	for secs := 1; secs <= 24; secs++ {
 		for k, dm := range []string{"empty", "hist", "wire", "self"} {
-			c.c13WireCase(secs, dm, cls, air, (secs+k)%4 == 0)
+			c.c13WireCase(secs, dm, cls, air, (secs+k)%6 == 0)
 			cls++
 		}
 	}
 	for i := 0; i < c.N(1100, 12000); i++ {
 		dm := []string{"empty", "hist", "wire", "hist", "wire", "self"}[c.R.Intn(6)]
-		mdl := i%40 == 0
+		mdl := i%64 == 0
 		secs := c.c13Secs()
 		if mdl {
 			secs = 1 + c.R.Intn(6)
@@ -1604,6 +1841,11 @@ func genC13(c *Ctx) {
 		}
 		c.c13SaveCase(secs, cls, air, mdl)
 		cls++
+	}
+
+	// life after loading: counters of loaded sections, then SetBlock, wire and save again
+	for i := 0; i < c.N(200, 4000); i++ {
+		c.c13LifeCase(i, air, i%20 < 2)
 	}
 
 	// malformed save form: height maps of every length around the right one
@@ -1633,7 +1875,10 @@ func genC13(c *Ctx) {
 		c13Apply(src, e, c.c13RandomChunk(e, air, false, round*5, true))
 		var buf bytes.Buffer
 		if _, err := src.WriteTo(&buf); err == nil {
-			for _, used := range []string{"0", "1"} {
+			for k, used := range []string{"0", "1"} {
+				if !c.Thorough() && k != round%2 {
+					continue // quick tier: fresh and used destinations alternate between the rounds
+				}
 				c.c13Malformed("chunk.rd", []string{"secs=" + strconv.Itoa(secs), "used=" + used}, buf.Bytes(), c.N(20, 300))
 			}
 		}
